@@ -82,7 +82,15 @@ pub fn trivia_run(rng: &mut Rng, lay: &Layout, after: Option<(K, &str)>, uid: &m
             }
             *uid += 1;
             if rng.chance(2, 3) {
-                s.push_str(&format!("`define ZQ{} zq{} + 1\n", uid, uid));
+                // the body ends at the first newline that no backslash directly precedes (22.5.1): a backslash
+                // followed by blanks is ordinary body text, backslash-newline continues the body
+                match rng.below(8) {
+                    0 => s.push_str(&format!("`define ZQ{} zq{} \\ \n", uid, uid)),
+                    1 => s.push_str(&format!("`define ZQ{} zq{} \\\t \n", uid, uid)),
+                    2 => s.push_str(&format!("`define ZQ{} zq{} \\\n + 1\n", uid, uid)),
+                    3 => s.push_str(&format!("`define ZQ{}(a, b = 2) a + b \\  \n", uid)),
+                    _ => s.push_str(&format!("`define ZQ{} zq{} + 1\n", uid, uid)),
+                }
             } else {
                 s.push_str(&format!("`undef ZQ{}{}", uid, *rng.pick(&[" ", "\n"])));
             }
